@@ -6,7 +6,8 @@ from vlib import songgen
 ID = "C02"
 LEAN_MODULE = "Ctrmml.Properties.C02"
 THEOREMS = ["C02_stream_ends_with_finish_partial", "C02_codec_roundtrip_linear", "C02_codec_roundtrip_segno",
-            "C02_codec_roundtrip_segno_once", "C02_codec_roundtrip_loops_nobreak_partial"]
+            "C02_codec_roundtrip_segno_once", "C02_codec_roundtrip_loops_nobreak_partial",
+            "C02_convert_structured_eq", "C02_codec_roundtrip_loops"]
 LEVEL = "proof"
 STREAM = "conv.events+conv.seq"
 CHUNK = 100
